@@ -87,6 +87,8 @@ def agg_frame(quick):
     out = []
     other, maxlen = (AGG_OTHER_QUICK, 3) if quick else (AGG_OTHER, 4)
     for api, tmpl, nm in AGG_FRAMES:
+        if quick and nm in ("union", "nested", "t_union"):
+            continue
         for seq in seqs_with(NODE_TOKENS, other, maxlen):
             out.append(("agg_frame_" + nm, api, tmpl % " ".join(seq)))
     return out
